@@ -524,15 +524,23 @@ func cliCalc(c *cliEnv, r *rand.Rand, cw *CalcWriter, prop, label string, maxT i
 	case "C08":
 		sa, sb, rel := pairC08(r, &gp, maxT)
 		tips := r.Intn(2) == 0
-		ref := treesFile(c, "ref.nw", []*STree{sa})
-		cmp := treesFile(c, "cmp.nw", []*STree{sb})
+		// either file may hold the tree rooted on a branch (the two branches under the root are one bipartition)
+		ta, tb := sa.text(), sb.text()
+		if r.Intn(3) == 0 {
+			ta = present(r, sa, 3).Newick()
+		}
+		if r.Intn(3) == 0 {
+			tb = present(r, sb, 3).Newick()
+		}
+		ref := c.file("ref.nw", ta+"\n")
+		cmp := c.file("cmp.nw", tb+"\n")
 		base := []string{"compare", "trees", "-i", ref, "-c", cmp}
 		if tips {
 			base = append(base, "-l")
 		}
 		out1, rc1, h1 := c.run(base...)
 		out2, rc2, h2 := c.run(append(append([]string{}, base...), "--binary")...)
-		ev := &CEvent{Kind: "Compare", Prop: "C08", Case: label, Trees: projTexts([]*STree{sa, sb}, ProjOpt{}),
+		ev := &CEvent{Kind: "Compare", Prop: "C08", Case: label, Trees: []*PTree{project(mustParse(ta), ProjOpt{}), project(mustParse(tb), ProjOpt{})},
 			Args: map[string]interface{}{"tips": tips, "identical": false, "rel": rel, "swap": false, "cli": true}}
 		ev.Hang = h1 || h2
 		if !ev.Hang && rc1 == 0 && rc2 == 0 {
